@@ -9,12 +9,13 @@ from datetime import timezone
 
 
 class FakeDT:
-    def __init__(self, year, month, day, hour, minute, second, microsecond, calls=None):
+    def __init__(self, year, month, day, hour, minute, second, microsecond, calls=None, utc=None):
         self.year, self.month, self.day = year, month, day
         self.hour, self.minute, self.second, self.microsecond = hour, minute, second, microsecond
         self.calls = calls if calls is not None else []
+        self.utc = utc          # the same instant in UTC (another FakeDT); None: this object already is in UTC
 
     def astimezone(self, tz=None):
         self.calls.append(('astimezone', 'UTC' if tz is timezone.utc else repr(tz)))
-        return FakeDT(self.year, self.month, self.day, self.hour, self.minute, self.second, self.microsecond,
-                      self.calls)
+        u = self.utc if self.utc is not None else self
+        return FakeDT(u.year, u.month, u.day, u.hour, u.minute, u.second, u.microsecond, self.calls)
